@@ -216,7 +216,9 @@ def run_da(pre, post, dsteps_frac, maxdelay, dt, lr_pos, lr_neg, tc_pos, tc_neg,
             tr = DelayAdjustedSTDP(ctor["lr_pos"], ctor["lr_neg"], ctor["tc_pos"], ctor["tc_neg"], batch_reduction=torch.sum)
             tr.register_cell("cell", layer.cell, **(base if override else {}))
         else:
-            tr = DelayAdjustedKernelSTDP(F.exp_stdp_post_kernel, F.exp_stdp_pre_kernel, dict(learning_rate=lr_pos, time_constant=tc_pos), dict(learning_rate=lr_neg, time_constant=tc_neg), batch_reduction=torch.sum)
+            # kernel hyper-parameters as TENSORS when `override` is set (documented as supported; they travel as buffers)
+            wrap_ = (lambda v: torch.tensor(float(v))) if override else (lambda v: v)
+            tr = DelayAdjustedKernelSTDP(F.exp_stdp_post_kernel, F.exp_stdp_pre_kernel, dict(learning_rate=wrap_(lr_pos), time_constant=wrap_(tc_pos)), dict(learning_rate=wrap_(lr_neg), time_constant=wrap_(tc_neg)), batch_reduction=torch.sum)
             tr.register_cell("cell", layer.cell)
         dws = []
         last_pre = [[None] * I for _ in range(B)]
@@ -483,6 +485,28 @@ def trainer_defaults(only=None, prefix="C18"):
     return fails, n
 
 
+def kernel_tensor_kwargs_case(pre, post):
+    """KernelSTDP with its kernel hyper-parameters given as tensors must change the weights exactly as with plain numbers"""
+    T, B, I = pre.shape
+    O = post.shape[2]
+    out = []
+    for as_t in (False, True):
+        conn, neuron, layer = build(I, O, B, 1.0, torch.zeros(O, I, dtype=torch.long), 0)
+        w = (lambda v: torch.tensor(float(v))) if as_t else (lambda v: v)
+        tr = KernelSTDP(F.exp_stdp_post_kernel, F.exp_stdp_pre_kernel, dict(learning_rate=w(0.5), time_constant=w(15.0)), dict(learning_rate=w(-0.3), time_constant=w(7.0)), batch_reduction=torch.sum)
+        tr.register_cell("cell", layer.cell)
+        w0 = conn.weight.clone().double()
+        with torch.no_grad():
+            for t in range(T):
+                layer(pre[t].float(), neuron_kwargs={"override": post[t]})
+                tr()
+            conn.update()
+        out.append(conn.weight.double() - w0)
+    if not torch.allclose(out[0], out[1], atol=1e-6, rtol=1e-5):
+        return {"what": "C18/KernelSTDP/tensor_hyperparameters_differ_from_numbers", "input": dict(pre=pre.int().tolist(), post=post.int().tolist()), "expected": out[0].tolist(), "actual": out[1].tolist()}
+    return None
+
+
 def sweep_c18(tier, seed):
     failures, cases = [], 0
     rnd = random.Random(seed + 1)
@@ -497,6 +521,13 @@ def sweep_c18(tier, seed):
                     failures.append(f)
     from inferno.learn import DelayAdjustedMSTDP, DelayAdjustedMSTDPD, DelayAdjustedSTDPD
 
+    rnd3 = random.Random(seed + 13)
+    for _ in range(2 if tier == "quick" else 10):
+        pre, post = rand_trains(rnd3, 12, 1, 3, 2, 0.35)
+        cases += 1
+        f = kernel_tensor_kwargs_case(pre, post)
+        if f is not None and not any(x["what"] == f["what"] for x in failures):
+            failures.append(f)
     rnd2 = random.Random(seed + 7)
     for _ in range(3 if tier == "quick" else 20):
         pre, post = rand_trains(rnd2, 12, 1, 3, 2, 0.35)
